@@ -227,6 +227,8 @@ package interpreter
 //@   define (=> (= err nil) (= (bigval (. result val)) (num_of (bytes bb))))
 //@ func interpreter.(*scriptNumber).Bytes
 //@   define (= (bytes result) (enc_num (old (bigval (. n val)))))
+// assumed property of the number encoding: zero encodes as a false item, every other number as a true one
+//@   define (= (spec.truthy (bytes result)) (distinct (old (bigval (. n val))) 0))
 //@ func interpreter.(*stack).PopInt
 //@   opt forall-patterns 1
 //@   ensures[C05.popint] (=> (= err nil) (and (>= (old (len (. s stk))) 1) (= (len (. s stk)) (- (old (len (. s stk))) 1)) (= (bigval (. r0 val)) (num_of (old (bytes (at (. s stk) (- (len (. s stk)) 1))))))))
@@ -234,6 +236,7 @@ package interpreter
 //@ func interpreter.(*stack).PushInt
 //@   opt forall-patterns 1
 //@   ensures[C05.pushint] (and (= (len (. s stk)) (+ (old (len (. s stk))) 1)) (= (bytes (at (. s stk) (old (len (. s stk))))) (enc_num (old (bigval (. n val))))))
+//@   ensures[C05.pushint_truth] (= (spec.truthy (bytes (at (. s stk) (old (len (. s stk)))))) (distinct (old (bigval (. n val))) 0))
 //@   ensures[C05.pushint_rest] (forall ((k Int)) (=> (and (<= 0 k) (< k (old (len (. s stk))))) (= (at (. s stk) k) (old (at (. s stk) k)))))
 
 // arithmetic and comparison opcodes: stack effect over the abstract numbers (num_of / enc_num)
@@ -270,6 +273,8 @@ package interpreter
 //@ func interpreter.opcodeNumEqual
 //@   opt forall-patterns 1
 //@   ensures[C05.opcodeNumEqual] (=> (= err nil) (spec.stack_result t 2 (ite (= (old (spec.top_num t 1)) (old (spec.top_num t 0))) 1 0)))
+//@   ensures[C05.opcodeNumEqual_err] (= (= err nil) (and (>= (old (len (. t dstack stk))) 2) (old (spec.top_ok t 0)) (old (spec.top_ok t 1))))
+//@   ensures[C05.opcodeNumEqual_truth] (=> (= err nil) (= (spec.truthy (bytes (at (. t dstack stk) (- (len (. t dstack stk)) 1)))) (= (old (spec.top_num t 1)) (old (spec.top_num t 0)))))
 //@ func interpreter.opcodeNumNotEqual
 //@   opt forall-patterns 1
 //@   ensures[C05.opcodeNumNotEqual] (=> (= err nil) (spec.stack_result t 2 (ite (distinct (old (spec.top_num t 1)) (old (spec.top_num t 0))) 1 0)))
@@ -701,3 +706,8 @@ package interpreter
 //@   ensures[C05.opcodeReturn] (and (= (= err nil) (and (. t afterGenesis) (> (len (. t condStack)) 0))) (=> (. t afterGenesis) (. t earlyReturnAfterGenesis)) (= (. t dstack stk) (old (. t dstack stk))) (= (. t condStack) (old (. t condStack))))
 //@ func interpreter.opcodeNop
 //@   ensures[C05.opcodeNop] (and (= (= err nil) (not (and (or (= (. op op val) 176) (and (<= 179 (. op op val)) (<= (. op op val) 185))) (= (mod (div (. t flags) 4) 2) 1)))) (= (. t dstack stk) (old (. t dstack stk))) (= (. t astack stk) (old (. t astack stk))) (= (. t condStack) (old (. t condStack))))
+//@ func interpreter.opcodeNumEqualVerify
+//@   bytes token
+//@   opt index-fn 1
+//@   ensures[C05.opcodeNumEqualVerify_err] (= (= err nil) (and (>= (old (len (. t dstack stk))) 2) (old (spec.top_ok t 0)) (old (spec.top_ok t 1)) (= (old (spec.top_num t 0)) (old (spec.top_num t 1)))))
+//@   ensures[C05.opcodeNumEqualVerify] (=> (= err nil) (and (= (len (. t dstack stk)) (- (old (len (. t dstack stk))) 2)) (forall ((k Int)) (=> (and (<= 0 k) (< k (len (. t dstack stk)))) (= (at (. t dstack stk) k) (old (at (. t dstack stk) k)))))))
